@@ -507,34 +507,450 @@ Qed.
 Lemma double_width_inv h G : inv2 h G ->
   match double_width h with
   | None => False
-  | Some h' => inv2 h' G /\ h_cfg h' = h_cfg h /\ c_zt (h_hot h') = c_zt (h_hot h)
+  | Some h' => inv2 h' G /\ h_cfg h' = h_cfg h /\ c_zt (h_hot h') = c_zt (h_hot h) /\
+               c_schema (h_hot h') <= c_schema (h_hot h)
   end.
 Proof.
   intros J. pose proof J as [[[Hc Hz Hp Hn Wp Wn Hs] [Dc Dz Ds Dp Dn DWp DWn] Hsch Hzt Hcnt] Hr Hztp Hcfg Hcz].
-  unfold double_width. destruct (Z.eqb_spec (c_schema (h_cold h)) (-4)) as [E4|E4]; [split; [exact J|split; reflexivity]|].
+  unfold double_width. destruct (Z.eqb_spec (c_schema (h_cold h)) (-4)) as [E4|E4]; [split; [exact J|split; [reflexivity|split; [reflexivity|lia]]]|].
   rewrite Hcnt, Z.eqb_refl. cbn [negb]. unfold add_and_reset_counts. cbn [c_sum c_cnt c_zb c_zt c_schema c_bn c_pos c_neg].
   assert (S0 : sorted_from ([] : bmap) 0) by exact I.
   pose proof (fun k => double_merge_get (c_pos (h_hot h)) [] 0 0 k S0) as Gp.
   destruct (double_merge (c_pos (h_hot h)) [] 0) as [hp bn1]. cbn [fst] in Gp.
   pose proof (fun k => double_merge_get (c_neg (h_hot h)) [] bn1 0 k S0) as Gn.
   destruct (double_merge (c_neg (h_hot h)) [] bn1) as [hn bn2]. cbn [fst] in Gn.
-  cbn [with_sets]. split; [|split; [reflexivity|exact Hzt]].
+  unfold with_sets. split; [|split; [reflexivity|split; [exact Hzt|cbn [h_hot c_schema]; lia]]].
   assert (Hr3 : -3 <= c_schema (h_hot h) <= 8) by lia.
   constructor; cbn [h_hot h_cold h_n h_cfg c_schema c_zt]; try assumption; try lia.
   - constructor; cbn [h_hot h_cold h_n c_schema c_zt c_cnt]; try reflexivity; try lia.
     + constructor; cbn [c_sum c_cnt c_zb c_zt c_schema c_pos c_neg].
-      * Show. lia.
+      * lia.
       * rewrite Hzt, Dz, Hz. lia.
       * intros k. destruct (Gp k) as [E _]. rewrite E. cbn [m_get]. rewrite Hzt, Hsch.
         rewrite (halved_counts goes_pos (c_zt (h_hot h)) (c_schema (h_hot h)) (c_pos (h_hot h)) G k
-                   (goes_pos_nonzero _ Hztp) Hr3 Wp Hp). lia.
+                   (fun v => goes_pos_nonzero _ v Hztp) Hr3 Wp Hp). lia.
       * intros k. destruct (Gn k) as [E _]. rewrite E. cbn [m_get]. rewrite Hzt, Hsch.
         rewrite (halved_counts goes_neg (c_zt (h_hot h)) (c_schema (h_hot h)) (c_neg (h_hot h)) G k
-                   (goes_neg_nonzero _ Hztp) Hr3 Wn Hn). lia.
+                   (fun v => goes_neg_nonzero _ v Hztp) Hr3 Wn Hn). lia.
       * apply (Gp 0).
       * apply (Gn 0).
       * rewrite Ds, Hs. apply fadd_pzero_sum.
     + constructor; cbn [c_sum c_cnt c_zb c_pos c_neg]; try reflexivity; try apply wf_nil; intros p [].
     + symmetry. exact Hzt.
   - rewrite Hzt. exact Hztp.
+Qed.
+
+(* ---- widening the zero bucket ---- *)
+Lemma m_del_props : forall m lo k, sorted_from m lo ->
+  sorted_from (fst (m_del m k)) lo /\ (forall p, In p (fst (m_del m k)) -> In p m).
+Proof.
+  induction m as [|[k0 v] r IH]; intros lo k Hs; [split; [exact I|intros p []]|].
+  cbn [sorted_from] in Hs. destruct Hs as [H1 H2]. cbn [m_del]. destruct (Z.eqb_spec k k0).
+  - cbn [fst]. split; [apply sorted_from_weaken with (k0 + 1); [exact H2|lia]|intros p Hp; right; exact Hp].
+  - destruct (IH (k0 + 1) k H2) as [S I']. destruct (m_del r k) as [r' c]. cbn [fst] in *. split.
+    + split; assumption.
+    + intros p [<-|Hp]; [left; reflexivity|right; apply I'; exact Hp].
+Qed.
+
+Lemma widen_merge_spec sk : forall cm hm hzb hbn cbn lo lo' c' hm' hzb' hbn' cbn',
+  sorted_from cm lo -> sorted_from hm lo' ->
+  widen_merge sk cm hm hzb hbn cbn = (c', hm', hzb', hbn', cbn') ->
+  (forall k, m_get hm' k = m_get hm k + (if Z.eqb k sk then 0 else m_get cm k)) /\
+  hzb' = hzb + m_get cm sk /\
+  (forall p, In p c' -> snd p = 0) /\ sorted_from c' lo /\ wf hm'.
+Proof.
+  induction cm as [|[k0 v] r IH]; intros hm hzb hbn cbn lo lo' c' hm' hzb' hbn' cbn' Hc Hh E.
+  - cbn in E. inversion E. subst. cbn [m_get]. repeat split; try (intros; destruct (_ =? _); lia); try lia.
+    + intros p [].
+    + eexists; exact Hh.
+  - cbn [sorted_from] in Hc. destruct Hc as [H1 H2]. cbn [widen_merge] in E.
+    destruct (Z.eqb_spec k0 sk) as [->|Hne].
+    + destruct (IH hm (hzb + v) hbn (u32_dec cbn) (sk + 1) lo' c' hm' hzb' hbn' cbn' H2 Hh E) as (A & B & C & D & F).
+      repeat split; try assumption.
+      * intros k. rewrite A. cbn [m_get]. destruct (Z.eqb_spec k sk); reflexivity.
+      * rewrite B. cbn [m_get]. rewrite Z.eqb_refl. rewrite (m_get_below r (sk + 1) sk H2) by lia. lia.
+      * apply sorted_from_weaken with (sk + 1); [exact D|lia].
+    + pose proof (fun k => m_add_get hm lo' k0 v k Hh) as Ea. pose proof (m_add_sorted hm lo' k0 v Hh) as Es.
+      destruct (m_add hm k0 v) as [hm1 cr]. cbn [fst] in Ea, Es.
+      destruct (widen_merge sk r hm1 hzb (if cr then u32_inc hbn else hbn) cbn) as [[[[c1 h1] z1] b1] n1] eqn:E1.
+      inversion E. subst.
+      destruct (IH hm1 hzb _ cbn (k0 + 1) _ c1 hm' hzb' hbn' cbn' H2 Es E1) as (A & B & C & D & F).
+      repeat split; try assumption.
+      * intros k. rewrite A, Ea. cbn [m_get]. destruct (Z.eqb_spec k sk) as [Eks|Eks]; destruct (Z.eqb_spec k k0) as [Ek0|Ek0]; try lia.
+        rewrite Ek0. rewrite (m_get_below r (k0 + 1) k0 H2) by lia. lia.
+      * rewrite B. cbn [m_get]. destruct (Z.eqb_spec sk k0); [lia|reflexivity].
+      * intros p [<-|Hp]; [reflexivity|apply C; exact Hp].
+Qed.
+
+Lemma cnt_sum3 (a b c d : f64 -> bool) G :
+  (forall v, In v G -> d v = a v || b v || c v) ->
+  (forall v, (a v && b v = false) /\ (a v && c v = false) /\ (b v && c v = false)) ->
+  cnt d G = cnt a G + cnt b G + cnt c G.
+Proof.
+  intros H D. induction G as [|x G IH]; [reflexivity|]. rewrite !cnt_cons, IH by (intros v Hv; apply H; right; exact Hv).
+  rewrite (H x (or_introl eq_refl)). destruct (D x) as (D1 & D2 & D3).
+  destruct (a x), (b x), (c x); cbn [orb andb] in *; try discriminate; lia.
+Qed.
+
+Lemma goes_disjoint zt v k :
+  (goes_zero zt v && (goes_pos zt v && k) = false) /\ (goes_zero zt v && (goes_neg zt v && k) = false) /\
+  ((goes_pos zt v && k) && (goes_neg zt v && k) = false).
+Proof.
+  unfold goes_zero, goes_pos, goes_neg. destruct (is_nan v), (fgt v zt), (flt v (fneg zt)), k; repeat split; reflexivity.
+Qed.
+
+Lemma maybe_widen_inv h G : inv2 h G ->
+  match maybe_widen h with
+  | None => False
+  | Some (h', false) => h' = h
+  | Some (h', true) => h_cfg h' = h_cfg h /\ c_schema (h_hot h') = c_schema (h_hot h) /\
+                       (widen_exact G (h_hot h) (h_hot h') = true -> inv2 h' G)
+  end.
+Proof.
+  intros J. pose proof J as [[[Hc Hz Hp Hn Wp Wn Hs] [Dc Dz Ds Dp Dn DWp DWn] Hsch Hzt Hcnt] Hr Hztp Hcfg Hcz].
+  unfold maybe_widen. destruct (fge (c_zt (h_hot h)) (g_max_zt (h_cfg h))); [reflexivity|].
+  set (sk := widen_key (h_hot h)). destruct (sk =? max_int32); [reflexivity|].
+  set (nzt := get_le sk (c_schema (h_hot h))). destruct (fgt nzt (g_max_zt (h_cfg h))); [reflexivity|].
+  destruct DWp as [lop DWp]. destruct DWn as [lon DWn]. destruct Wp as [lp Wp]. destruct Wn as [ln Wn].
+  destruct (m_del_props (c_neg (h_cold h)) lon sk DWn) as [Sn In_n].
+  destruct (m_del (c_neg (h_cold h)) sk) as [neg1 ln1]. cbn [fst] in Sn, In_n.
+  destruct (m_del_props (c_pos (h_cold h)) lop sk DWp) as [Sp In_p].
+  destruct (m_del (c_pos (h_cold h)) sk) as [pos1 lp1]. cbn [fst] in Sp, In_p.
+  rewrite Hcnt, Z.eqb_refl. cbn [negb]. unfold add_and_reset_counts. cbn [c_sum c_cnt c_zb c_zt c_schema c_bn c_pos c_neg].
+  destruct (widen_merge sk (c_pos (h_hot h)) pos1 (c_zb (h_cold h) + c_zb (h_hot h))
+              (if lp1 then u32_dec (if ln1 then u32_dec (c_bn (h_cold h)) else c_bn (h_cold h)) else if ln1 then u32_dec (c_bn (h_cold h)) else c_bn (h_cold h))
+              (c_bn (h_hot h))) as [[[[cp hp] hzb1] hbn1] cbn1] eqn:E1.
+  destruct (widen_merge_spec sk _ _ _ _ _ lp lop _ _ _ _ _ Wp Sp E1) as (A1 & B1 & C1 & D1 & F1).
+  destruct (widen_merge sk (c_neg (h_hot h)) neg1 hzb1 hbn1 cbn1) as [[[[cn hn] hzb2] hbn2] cbn2] eqn:E2.
+  destruct (widen_merge_spec sk _ _ _ _ _ ln lon _ _ _ _ _ Wn Sn E2) as (A2 & B2 & C2 & D2 & F2).
+  unfold with_sets. cbn [h_cfg h_hot]. split; [reflexivity|]. split; [cbn [c_schema]; exact Hsch|]. intros Hex.
+  unfold widen_exact in Hex. cbn [c_zt] in Hex. fold sk in Hex. apply andb_prop in Hex. destruct Hex as [Hnz Hall].
+  rewrite forallb_forall in Hall.
+  assert (Hv : forall v, In v G ->
+     goes_zero nzt v = goes_zero (c_zt (h_hot h)) v || (goes_pos (c_zt (h_hot h)) v && (key_of (c_schema (h_hot h)) v =? sk))
+                       || (goes_neg (c_zt (h_hot h)) v && (key_of (c_schema (h_hot h)) v =? sk)) /\
+     goes_pos nzt v = goes_pos (c_zt (h_hot h)) v && negb (key_of (c_schema (h_hot h)) v =? sk) /\
+     goes_neg nzt v = goes_neg (c_zt (h_hot h)) v && negb (key_of (c_schema (h_hot h)) v =? sk)).
+  { intros v Hin. specialize (Hall v Hin). cbv beta zeta in Hall.
+    apply andb_prop in Hall. destruct Hall as [Hall H3]. apply andb_prop in Hall. destruct Hall as [H1 H2].
+    apply eqb_prop in H1. apply eqb_prop in H2. apply eqb_prop in H3. repeat split; assumption. }
+  assert (Zp : forall k, m_get pos1 k = 0) by (intros k; apply m_get_all_zero; intros p Hp'; apply Dp, In_p, Hp').
+  assert (Zn : forall k, m_get neg1 k = 0) by (intros k; apply m_get_all_zero; intros p Hp'; apply Dn, In_n, Hp').
+  constructor; cbn [h_hot h_cold h_n h_cfg c_schema c_zt]; try assumption; try lia.
+  constructor; cbn [h_hot h_cold h_n c_schema c_zt c_cnt]; try reflexivity; try lia.
+  - constructor; cbn [c_sum c_cnt c_zb c_zt c_schema c_pos c_neg].
+    + lia.
+    + rewrite B2, B1, Dz, Hz, Hp, Hn.
+      rewrite (cnt_sum3 (goes_zero (c_zt (h_hot h)))
+                 (fun v => goes_pos (c_zt (h_hot h)) v && (key_of (c_schema (h_hot h)) v =? sk))
+                 (fun v => goes_neg (c_zt (h_hot h)) v && (key_of (c_schema (h_hot h)) v =? sk))
+                 (goes_zero nzt) G).
+      * lia.
+      * intros v Hin. apply (Hv v Hin).
+      * intros v. apply goes_disjoint.
+    + intros k. rewrite A1, Zp, Hsch. destruct (Z.eqb_spec k sk) as [->|Hne].
+      * symmetry. rewrite Z.add_0_l. apply cnt_false. intros v Hin. destruct (Hv v Hin) as (_ & -> & _).
+        destruct (key_of (c_schema (h_hot h)) v =? sk); cbn; rewrite ?andb_false_r; reflexivity.
+      * rewrite Hp, Z.add_0_l. apply cnt_ext. intros v Hin. destruct (Hv v Hin) as (_ & -> & _).
+        destruct (Z.eqb_spec (key_of (c_schema (h_hot h)) v) k) as [->|]; [|rewrite !andb_false_r; reflexivity].
+        destruct (Z.eqb_spec k sk); [lia|]. cbn [negb]. rewrite !andb_true_r. reflexivity.
+    + intros k. rewrite A2, Zn, Hsch. destruct (Z.eqb_spec k sk) as [->|Hne].
+      * symmetry. rewrite Z.add_0_l. apply cnt_false. intros v Hin. destruct (Hv v Hin) as (_ & _ & ->).
+        destruct (key_of (c_schema (h_hot h)) v =? sk); cbn; rewrite ?andb_false_r; reflexivity.
+      * rewrite Hn, Z.add_0_l. apply cnt_ext. intros v Hin. destruct (Hv v Hin) as (_ & _ & ->).
+        destruct (Z.eqb_spec (key_of (c_schema (h_hot h)) v) k) as [->|]; [|rewrite !andb_false_r; reflexivity].
+        destruct (Z.eqb_spec k sk); [lia|]. cbn [negb]. rewrite !andb_true_r. reflexivity.
+    + exact F1.
+    + exact F2.
+    + rewrite Ds, Hs. apply fadd_pzero_sum.
+  - constructor; cbn [c_sum c_cnt c_zb c_pos c_neg]; try reflexivity; try assumption.
+    + eexists; exact D1.
+    + eexists; exact D2.
+Qed.
+
+(* ---- one Observe, one operation, whole runs ---- *)
+Definition after_kind (k : step_kind) (h h' : hist) (G : list f64) (v : f64) (before : counts) : Prop :=
+  match k with
+  | SReset => inv2 h' [v]
+  | SWiden => widen_exact G before (h_hot h') = true -> inv2 h' G
+  | _ => inv2 h' G
+  end.
+
+Lemma limit_buckets_inv h G v : inv2 h G ->
+  match limit_buckets h v with
+  | None => False
+  | Some (h', k) => h_cfg h' = h_cfg h /\ after_kind k h h' G v (h_hot h) /\
+                    (k <> SReset -> c_schema (h_hot h') <= c_schema (h_hot h))
+  end.
+Proof.
+  intros J. unfold limit_buckets.
+  destruct (g_max_buckets (h_cfg h) =? 0); [split; [reflexivity|split; [exact J|lia]]|].
+  destruct (c_bn (h_hot h) <=? g_max_buckets (h_cfg h)); [split; [reflexivity|split; [exact J|lia]]|].
+  pose proof (maybe_reset_inv h G v J) as R. destruct (maybe_reset h v) as [[h1 [|]]|]; [|subst h1|contradiction].
+  - destruct R as [R1 R2]. split; [exact R2|split; [exact R1|congruence]].
+  - set (h2 := if (0 <? g_min_reset (h_cfg h)) && negb (h_sched h)
+               then mkHist (h_cfg h) (h_hot h) (h_cold h) (h_n h) (h_last h) true (h_clock h)
+                      (h_timers h ++ [g_min_reset (h_cfg h) - (h_clock h - h_last h)]) (h_ex h) else h).
+    assert (E2 : h_hot h2 = h_hot h /\ h_cold h2 = h_cold h /\ h_n h2 = h_n h /\ h_cfg h2 = h_cfg h).
+    { unfold h2. destruct ((0 <? g_min_reset (h_cfg h)) && negb (h_sched h)); repeat split. }
+    destruct E2 as (Eh & Ec & En & Eg).
+    assert (J2 : inv2 h2 G) by (apply (inv2_ext h h2 G Eh Ec En Eg J)).
+    pose proof (maybe_widen_inv h2 G J2) as W. destruct (maybe_widen h2) as [[h3 [|]]|]; [|subst h3|contradiction].
+    + destruct W as (W1 & Ws & W2). split; [congruence|]. split; [cbn [after_kind]; rewrite <- Eh; exact W2|].
+      intros _. rewrite Ws, Eh. lia.
+    + pose proof (double_width_inv h2 G J2) as D. destruct (double_width h2) as [h4|]; [|contradiction].
+      destruct D as (D1 & D2 & _ & D4). split; [congruence|]. split; [destruct (c_schema (h_cold h2) =? -4); exact D1|].
+      intros _. rewrite <- Eh. exact D4.
+Qed.
+
+Lemma observe_k_inv h G v : inv2 h G ->
+  match observe_k h v with
+  | None => False
+  | Some (h', k) => h_cfg h' = h_cfg h /\ after_kind k h h' (G ++ [v]) v (c_observe (h_hot h) v) /\
+                    (k <> SReset -> c_schema (h_hot h') <= c_schema (h_hot h))
+  end.
+Proof.
+  intros J. unfold observe_k. pose proof (inv2_observe_raw h G v J) as J1.
+  destruct (c_observe_fields (h_hot h) v) as (F1 & _ & _).
+  set (h1 := with_sets h (c_observe (h_hot h) v) (h_cold h) (h_n h + 1)) in *.
+  destruct (is_nan v); [split; [reflexivity|split; [exact J1|intros _; cbn [h1 with_sets h_hot]; lia]]|].
+  pose proof (limit_buckets_inv h1 (G ++ [v]) v J1) as L.
+  destruct (limit_buckets h1 v) as [[h' k]|]; [|contradiction].
+  destruct L as (L1 & L2 & L3). split; [rewrite L1; reflexivity|]. split; [destruct k; exact L2|].
+  intros Hk. specialize (L3 Hk). cbn [h1 with_sets h_hot] in L3. lia.
+Qed.
+
+(* what a Write exposes: exact accounting, schema within [-4, configured schema] (a subset of
+   [-4, 8]), a non-negative zero threshold *)
+Definition out_ok2 (g : config) (G : list f64) (w : wout) : Prop :=
+  out_ok G w /\ -4 <= w_schema w <= 8 /\ fle pzero (w_zt w) = true.
+
+Definition step_post (h : hist) (G : list f64) (o : op) : Prop :=
+  match step h o with
+  | None => False
+  | Some (h', None) => h_cfg h' = h_cfg h /\ (step_exact h G o = true -> inv2 h' (ghost_step h G o))
+  | Some (h', Some w) => h_cfg h' = h_cfg h /\ inv2 h' G /\ out_ok2 (h_cfg h) G w
+  end.
+
+Lemma observe_post h G v (f : hist -> hist) :
+  (forall x, h_hot (f x) = h_hot x /\ h_cold (f x) = h_cold x /\ h_n (f x) = h_n x /\ h_cfg (f x) = h_cfg x) ->
+  inv2 h G ->
+  match option_map (fun h' => (f h', @None wout)) (observe h v) with
+  | None => False
+  | Some (h', None) =>
+      h_cfg h' = h_cfg h /\
+      (match observe_k h v with
+       | Some (h'', SWiden) => widen_exact (G ++ [v]) (c_observe (h_hot h) v) (h_hot h'')
+       | _ => true end = true ->
+       inv2 h' (match observe_k h v with Some (_, SReset) => [v] | _ => G ++ [v] end))
+  | Some (_, Some _) => False
+  end.
+Proof.
+  intros Hf J. unfold observe. pose proof (observe_k_inv h G v J) as O.
+  destruct (observe_k h v) as [[h' k]|]; [|contradiction]. cbn [option_map fst].
+  destruct O as (O1 & O2 & _). destruct (Hf h') as (F1 & F2 & F3 & F4). split; [congruence|].
+  intros Hex. apply (inv2_ext h' (f h') _ F1 F2 F3 F4).
+  destruct k; cbn [after_kind] in O2; try exact O2. apply O2. exact Hex.
+Qed.
+
+Lemma step_inv h G o : inv2 h G -> step_post h G o.
+Proof.
+  intros J. unfold step_post. destruct o as [v|v orc| |d|].
+  - cbn [step ghost_step step_exact].
+    pose proof (observe_post h G v (fun x => x) (fun x => conj eq_refl (conj eq_refl (conj eq_refl eq_refl))) J) as P.
+    destruct (option_map (fun h' => (h', None)) (observe h v)) as [[h' [w|]]|]; [contradiction|exact P|contradiction].
+  - cbn [step ghost_step step_exact].
+    assert (Hf : forall x, h_hot (update_exemplar x v orc) = h_hot x /\ h_cold (update_exemplar x v orc) = h_cold x /\
+                            h_n (update_exemplar x v orc) = h_n x /\ h_cfg (update_exemplar x v orc) = h_cfg x).
+    { intros x. unfold update_exemplar. destruct (is_nan v); repeat split. }
+    pose proof (observe_post h G v (fun x => update_exemplar x v orc) Hf J) as P.
+    destruct (option_map (fun h' => (update_exemplar h' v orc, None)) (observe h v)) as [[h' [w|]]|]; [contradiction|exact P|contradiction].
+  - cbn [step]. destruct J as [J1 J2 J3 J4 J5].
+    destruct (write_inv h G J1) as (h' & w & E & I' & O & Esw & Ezw & _ & Eg & _ & _ & _ & Es & Ez).
+    rewrite E. cbn [option_map fst snd]. split; [exact Eg|]. split; [|split; [exact O|split; [rewrite Esw; exact J2|rewrite Ezw; exact J3]]].
+    constructor; [exact I'|rewrite Es; exact J2|rewrite Ez; exact J3|rewrite Eg; exact J4|rewrite Eg; exact J5].
+  - cbn [step ghost_step step_exact]. split; [reflexivity|]. intros _.
+    apply (inv2_ext h _ G); try reflexivity. exact J.
+  - cbn [step ghost_step step_exact]. destruct (h_sched h).
+    + pose proof (timer_reset_inv h G J) as T. destruct (timer_reset h) as [h'|]; [|contradiction].
+      cbn [option_map]. destruct T as [T1 T2]. split; [exact T2|]. intros _. exact T1.
+    + split; [reflexivity|]. intros _. exact J.
+Qed.
+
+Definition outs_ok (g : config) (l : list (wout * list f64)) : Prop := Forall (fun p => out_ok2 g (snd p) (fst p)) l.
+
+(* native_accounting: for every configuration and every operation sequence the sequential model
+   never hangs, and every Write issued before the first inexact widening (if any) exposes exactly
+   the observations made since the last reset *)
+Lemma run_ghost_ok : forall ops h G, inv2 h G ->
+  match run_ghost h G ops with
+  | None => False
+  | Some (l, _) => outs_ok (h_cfg h) l
+  end.
+Proof.
+  induction ops as [|o r IH]; intros h G J; [constructor|].
+  cbn [run_ghost]. pose proof (step_inv h G o J) as P. unfold step_post in P.
+  destruct (step h o) as [[h' [w|]]|]; [| |contradiction].
+  - destruct P as (Eg & J' & O). specialize (IH h' G J'). rewrite Eg in IH.
+    destruct (run_ghost h' G r) as [[l b]|]; [|contradiction]. constructor; [exact O|exact IH].
+  - destruct P as (Eg & P). destruct (step_exact h G o); [|constructor].
+    rewrite <- Eg. apply IH. apply P. reflexivity.
+Qed.
+
+Lemma native_accounting_lemma g ops : valid_config g ->
+  exists l b, run_ghost (new_hist g) [] ops = Some (l, b) /\ outs_ok g l.
+Proof.
+  intros Hv. pose proof (run_ghost_ok ops (new_hist g) [] (inv2_new g Hv)) as H.
+  destruct (run_ghost (new_hist g) [] ops) as [[l b]|]; [|contradiction]. exists l, b. split; [reflexivity|exact H].
+Qed.
+
+(* the ghost run is the run: same outputs *)
+Lemma run_ghost_outputs : forall ops h G l, run_ghost h G ops = Some (l, true) -> run_ops h ops = Some (map fst l).
+Proof.
+  induction ops as [|o r IH]; intros h G l E; [cbn in E; inversion E; reflexivity|].
+  cbn [run_ghost run_ops] in *. destruct (step h o) as [[h' [w|]]|]; [| |discriminate].
+  - destruct (run_ghost h' G r) as [[l' b]|] eqn:E'; [|discriminate]. inversion E. subst.
+    rewrite (IH h' G l' E'). reflexivity.
+  - destruct (step_exact h G o); [|discriminate]. apply (IH h' _ l E).
+Qed.
+
+(* without a bucket limit no strategy ever fires: the statement is unconditional *)
+Lemma limit_none h v : g_max_buckets (h_cfg h) = 0 ->
+  match observe_k h v with Some (h', SWiden) => False | _ => True end.
+Proof.
+  intros H0. unfold observe_k. destruct (is_nan v); [exact I|]. unfold limit_buckets. cbn [with_sets h_cfg].
+  rewrite H0. exact I.
+Qed.
+
+Lemma run_ghost_nolimit : forall ops h G, inv2 h G -> g_max_buckets (h_cfg h) = 0 ->
+  exists l, run_ghost h G ops = Some (l, true) /\ outs_ok (h_cfg h) l.
+Proof.
+  induction ops as [|o r IH]; intros h G J H0; [exists []; split; [reflexivity|constructor]|].
+  cbn [run_ghost]. pose proof (step_inv h G o J) as P. unfold step_post in P.
+  destruct (step h o) as [[h' [w|]]|]; [| |contradiction].
+  - destruct P as (Eg & J' & O). destruct (IH h' G J' ltac:(rewrite Eg; exact H0)) as (l & E & Ol).
+    rewrite E. exists ((w, G) :: l). split; [reflexivity|]. rewrite Eg in Ol. constructor; assumption.
+  - destruct P as (Eg & P).
+    assert (Ex : step_exact h G o = true).
+    { destruct o as [v|v orc| |d|]; try reflexivity; cbn [step_exact];
+        pose proof (limit_none h v H0) as L; destruct (observe_k h v) as [[h'' []]|]; try reflexivity; contradiction. }
+    rewrite Ex. rewrite <- Eg. apply IH; [apply P; exact Ex|rewrite Eg; exact H0].
+Qed.
+
+Lemma native_accounting_nolimit_lemma g ops : valid_config g -> g_max_buckets g = 0 ->
+  exists l, run_ghost (new_hist g) [] ops = Some (l, true) /\ outs_ok g l /\ run g ops = Some (map fst l).
+Proof.
+  intros Hv H0. destruct (run_ghost_nolimit ops (new_hist g) [] (inv2_new g Hv) H0) as (l & E & O).
+  exists l. split; [exact E|]. split; [exact O|]. apply (run_ghost_outputs ops _ [] l E).
+Qed.
+
+(* ---- limit_step_taken ---- *)
+(* If, after a non-NaN observation has been counted, the hot bucket number exceeds the configured
+   limit, that very Observe has reset, widened or halved -- or found the resolution minimal. *)
+Lemma limit_step_taken_lemma h v h' k : is_nan v = false -> observe_k h v = Some (h', k) ->
+  0 < g_max_buckets (h_cfg h) ->
+  g_max_buckets (h_cfg h) < c_bn (c_observe (h_hot h) v) ->
+  k <> SNone.
+Proof.
+  intros Hn E Hmax Hbn. unfold observe_k in E. rewrite Hn in E. unfold limit_buckets in E.
+  cbn [with_sets h_cfg h_hot] in E.
+  destruct (Z.eqb_spec (g_max_buckets (h_cfg h)) 0); [lia|].
+  destruct (Z.leb_spec (c_bn (c_observe (h_hot h) v)) (g_max_buckets (h_cfg h))); [lia|].
+  destruct (maybe_reset _ v) as [[h1 [|]]|]; [inversion E; discriminate| |discriminate].
+  match type of E with context [maybe_widen ?x] => destruct (maybe_widen x) as [[h3 [|]]|] end;
+    [inversion E; discriminate| |discriminate].
+  destruct (double_width h3) as [h4|]; [|discriminate]. inversion E.
+  destruct (c_schema (h_cold h3) =? -4); discriminate.
+Qed.
+
+(* ... and "minimal" means what it says: the schema is -4 and nothing was changed *)
+Lemma limit_minimal_lemma h v h' : observe_k h v = Some (h', SMinimal) -> c_schema (h_cold h') = -4.
+Proof.
+  intros E. unfold observe_k in E. destruct (is_nan v); [discriminate|]. unfold limit_buckets in E.
+  destruct (_ =? 0) in E; [discriminate|]. destruct (_ <=? _) in E; [discriminate|].
+  destruct (maybe_reset _ v) as [[h1 [|]]|]; [discriminate| |discriminate].
+  match type of E with context [maybe_widen ?x] => destruct (maybe_widen x) as [[h3 [|]]|] end;
+    [discriminate| |discriminate].
+  destruct (double_width h3) as [h4|] eqn:D; [|discriminate].
+  destruct (Z.eqb_spec (c_schema (h_cold h3)) (-4)) as [E4|E4]; [|discriminate].
+  unfold double_width in D. rewrite E4 in D. cbn in D. inversion D. subst h4. inversion E. subst h'. exact E4.
+Qed.
+
+(* a reset restarts from the configured schema and zero threshold and retains only the
+   observation that triggered it (the timer-driven reset retains nothing) *)
+Lemma reset_restarts_lemma h G v h' : inv2 h G -> observe_k h v = Some (h', SReset) ->
+  inv2 h' [v] /\ c_schema (h_hot h') = g_schema (h_cfg h) /\ c_zt (h_hot h') = init_zt (h_cfg h) /\
+  c_cnt (h_hot h') = 1 /\ h_last h' = h_clock h.
+Proof.
+  intros J E. pose proof (observe_k_inv h G v J) as O. rewrite E in O. destruct O as (_ & O & _).
+  cbn [after_kind] in O. split; [exact O|].
+  unfold observe_k in E. destruct (is_nan v); [discriminate|]. unfold limit_buckets in E.
+  destruct (_ =? 0) in E; [discriminate|]. destruct (_ <=? _) in E; [discriminate|].
+  unfold maybe_reset in E. cbn [with_sets h_cfg h_sched h_clock h_last h_n h_hot h_timers h_ex] in E.
+  destruct (_ || _ || _) in E.
+  - match type of E with context [maybe_widen ?x] => destruct (maybe_widen x) as [[h3 [|]]|] end; try discriminate.
+    destruct (double_width h3); [|discriminate]. inversion E. destruct (_ =? -4) in *; discriminate.
+  - destruct (negb _) in E; [discriminate|]. inversion E. subst h'. cbn [h_hot h_last].
+    destruct (c_observe_fields (reset_counts (h_cfg h)) v) as (F1 & F2 & F3). rewrite F1, F2, F3. repeat split.
+Qed.
+
+Lemma timer_restarts_lemma h G h' : inv2 h G -> timer_reset h = Some h' ->
+  inv2 h' [] /\ h_hot h' = reset_counts (h_cfg h) /\ h_last h' = h_clock h /\ h_sched h' = false.
+Proof.
+  intros J E. pose proof (timer_reset_inv h G J) as T. rewrite E in T. destruct T as [T _]. split; [exact T|].
+  unfold timer_reset in E. destruct (negb _) in E; [discriminate|]. inversion E. repeat split.
+Qed.
+
+(* ---- concrete runs: the hypotheses are satisfiable, and the known defect is real ---- *)
+Definition expo_of_wout (w : wout) : option expo :=
+  match decode (w_pspans w) (w_pdeltas w), decode (w_nspans w) (w_ndeltas w) with
+  | Some pos, Some neg => Some (mkExpo (w_schema w) (w_zt w) (w_zc w) (w_count w) (w_sum w) (w_created w) pos neg)
+  | _, _ => None
+  end.
+
+(* schema 2, default zero threshold, at most 2 buckets, zero bucket may grow to 4, reset after 1000 ns *)
+Definition ex_cfg : config := mkConfig 2 pzero 2 (of_bits 0x4010000000000000) 1000 3 0.
+Definition ex_ops : list op :=
+  [OObs (of_bits 0x3FF8000000000000); OObs (of_bits 0x4008000000000000); OObsEx (of_bits 0x4018000000000000) 0; OWrite;
+   OObs (of_bits 0x4028000000000000); OObs (of_bits 0xC028000000000000); OObs fnan; OWrite; OAdvance 2000;
+   OObs (of_bits 0x4059000000000000); OObs (of_bits 0x3FB999999999999A); OWrite; OFire; OWrite].
+
+(* this run widens the zero bucket (exactly), halves the resolution three times, schedules and fires
+   the reset timer; all four expositions satisfy the SPECIFICATION's accounting_check against the ghost G *)
+Lemma accounting_example_lemma :
+  match run_ghost (new_hist ex_cfg) [] ex_ops with
+  | Some (l, true) =>
+      map (fun p => (w_schema (fst p), w_count (fst p), w_created (fst p))) l = [(2, 3, 0); (1, 6, 0); (-1, 8, 0); (2, 0, 2000)] /\
+      forallb (fun p => match expo_of_wout (fst p) with Some x => accounting_check (snd p) x | None => false end) l = true
+  | _ => False
+  end.
+Proof. vm_compute. split; reflexivity. Qed.
+
+(* known finding subnormal-widen: schema 1, zero threshold 0, one bucket allowed, zero bucket may grow to
+   1e-300; observing 5*2^-1074 and 6*2^-1074 widens the zero bucket to getLe(-2143, 1), which ROUNDS up to
+   6*2^-1074: the exposition says zero threshold 6*2^-1074, zero count 1, and the observation 6*2^-1074
+   (which is <= the threshold) sits in regular bucket -2142.  The widening is not exact and the
+   specification's accounting_check rejects the exposition. *)
+Definition kf_cfg : config := mkConfig 1 (of_bits 0xBFF0000000000000) 1 (of_bits 0x01A56E1FC2F8F359) 0 (-1) 0.
+Definition kf_obs : list f64 := [of_bits 5; of_bits 6].
+Definition kf_ops : list op := [OObs (of_bits 5); OObs (of_bits 6); OWrite].
+
+Lemma widen_subnormal_refuted_lemma :
+  valid_config kf_cfg /\
+  run_ghost (new_hist kf_cfg) [] kf_ops = Some ([], false) /\
+  exists w, run kf_cfg kf_ops = Some [w] /\
+    to_bits (w_zt w) = 6 /\ w_zc w = 1 /\ decode (w_pspans w) (w_pdeltas w) = Some [(-2142, 1)] /\
+    match expo_of_wout w with Some x => accounting_check kf_obs x = false | None => False end.
+Proof.
+  split; [unfold valid_config; cbn; lia|]. split; [vm_compute; reflexivity|].
+  destruct (run kf_cfg kf_ops) as [[|w [|]]|] eqn:E; try (vm_compute in E; discriminate).
+  exists w. split; [reflexivity|].
+  assert (Ew : Some [(to_bits (w_zt w), w_zc w, decode (w_pspans w) (w_pdeltas w),
+                      match expo_of_wout w with Some x => Some (accounting_check kf_obs x) | None => None end)]
+             = option_map (map (fun w => (to_bits (w_zt w), w_zc w, decode (w_pspans w) (w_pdeltas w),
+                      match expo_of_wout w with Some x => Some (accounting_check kf_obs x) | None => None end))) (run kf_cfg kf_ops))
+    by (rewrite E; reflexivity).
+  vm_compute in Ew. inversion Ew as [[H1 H2 H3 H4]]. clear Ew.
+  rewrite <- H1, <- H2, <- H3. repeat split; try reflexivity.
+  destruct (expo_of_wout w) as [x|]; [|discriminate]. inversion H4. reflexivity.
 Qed.
